@@ -323,6 +323,12 @@ func genC10Spec(t *rapid.T) EncSpec {
 		}
 		s = genEncSpecFam(t, fam, 1)
 		r := rapid.SampledFrom([]string{"\x7f", "\u0080", "ð", "ñ", "ô", "õ", "*", "+", "-", " ", "a", "\x00", "\xff", "B", "F"}).Draw(t, "bc")
+		switch rapid.IntRange(0, 3).Draw(t, "bck") {
+		case 0: // a rune whose low byte is a character of the symbology's alphabet
+			r = string(aliasRune(rapid.SampledFrom([]byte("0123456789ABCDZ $%*+-./:az")).Draw(t, "ac"), rapid.IntRange(0, 199).Draw(t, "ak")))
+		case 1:
+			r = string(rapid.SampledFrom(nonASCIIDigits).Draw(t, "nd"))
+		}
 		p := 0
 		if len(s.Content) > 0 {
 			p = rapid.IntRange(0, len(s.Content)).Draw(t, "pos")
@@ -561,6 +567,15 @@ func TestC10Boundaries(t *testing.T) {
 			for _, h := range hostileStrings {
 				s := v
 				s.Content = BStr(h)
+				add(s)
+			}
+			for i, nd := range nonASCIIDigits {
+				s := v
+				s.Content = BStr("1234567890123" + string(nd) + "4567890123456")
+				add(s)
+				s.Content = BStr("12345" + string(aliasRune(byte('0'+i%10), i)))
+				add(s)
+				s.Content = BStr("A" + string(aliasRune("AB1$"[i%4], i*7)) + "B")
 				add(s)
 			}
 		}
